@@ -246,11 +246,12 @@ def i_LUI(ins, fmap):
         fmap[dst] = fmap(src1)
 
 
-@__npc
 def i_AUIPC(ins, fmap):
     dst, src1 = ins.operands
+    # the offset is added to the address of the AUIPC instruction itself
     if dst is not zero:
         fmap[dst] = fmap(pc + src1)
+    fmap[pc] = fmap(pc) + ins.length
 
 
 def i_JAL(ins, fmap):
